@@ -245,6 +245,18 @@ fn step(ops: &[Op], fp: &Fp, path: &[u8], oi: usize) -> StepResult {
                     viols.push(("leading zeros are kept".into(), format!("{} leading zeros", fp.1), after_s.clone()));
                 }
             }
+            Op::Fput(_) | Op::Push(_) => {
+                // forced placements may overwrite digits; the leading zeros counted so far are still kept
+                if !after_s.starts_with(&"0".repeat(fp.1)) {
+                    viols.push(("leading zeros are kept".into(), format!("{} leading zeros", fp.1), format!("{before_s} -> {after_s}")));
+                }
+                if let Op::Push(d) = op {
+                    let want = format!("{before_s}{}", std::str::from_utf8(d).unwrap());
+                    if after_s != want {
+                        viols.push(("push appends its digits at the right of the digits already there (as documented)".into(), want, after_s.clone()));
+                    }
+                }
+            }
             _ => {}
         }
     }
@@ -432,7 +444,7 @@ pub fn run(tier: Tier) -> i32 {
     });
     ctx.finish(acc, cov, vec![
         "only ASCII digit arguments are fed; is_range_free's documented precondition start < end is honoured".into(),
-        "error kinds are not compared; fput/push are only required to keep the rendering well-formed and to respect freeze".into(),
+        "error kinds are not compared; fput (a forced placement that may overwrite) is required to keep the rendering well-formed, to keep the leading zeros and to respect freeze; push also to append exactly its digits".into(),
         "for a shift on an all-zero rightmost group both documented readings (group x 10^p, implicit 1) are accepted".into(),
     ])
 }
